@@ -354,6 +354,9 @@ impl<C: IterConfig> BucketIter<C> {
             });
         }
 
+        #[cfg(sierra_db_sierradb_verif)]
+        crate::verif::point("rd.iter.live_miss", &[("bucket", bucket_id as u64)]);
+
         let (reply_tx, reply_rx) = oneshot::channel();
         let config_clone = config.clone();
         reader_pool.spawn(move |with_readers| {
